@@ -89,7 +89,7 @@ func TestSchemeOfExamples(t *testing.T) {
 			t.Errorf("schemeOf(%q) = %q,%v want %q", in, got, abs, want)
 		}
 	}
-	auth := map[string]bool{"http://a/": true, "//a": true, "http:/a": true, "http:a": true, "https:\\\\a": true, "///a": true, "/\\a/": true, "\\\\a": true, "\\a": false, "///": false, "http:": false, "x-app:/a": false, "x-app://a/": true, "mailto:/a": false, "/x": false, "http://user@/p": false, "http://[::1]/": true, "http://:80/": false, "mailto:a@b": false, "https://h:8080/x": true, " //a/": true, "/\t/a": true, " /x": false, "\n//a ": true}
+	auth := map[string]bool{"http://a/": true, "//a": true, "http:/a": true, "http:a": true, "https:\\\\a": true, "///a": true, "/\\a/": true, "\\\\a": true, "\\a": false, "///": false, "http:": false, "x-app:/a": false, "x-app://a/": true, "mailto:/a": false, "file:\\\\h\\x": true, "file:///x": false, "file://h/x": true, "file:/x": false, "/x": false, "http://user@/p": false, "http://[::1]/": true, "http://:80/": false, "mailto:a@b": false, "https://h:8080/x": true, " //a/": true, "/\t/a": true, " /x": false, "\n//a ": true}
 	for in, want := range auth {
 		if got := hasAuthority(in); got != want {
 			t.Errorf("hasAuthority(%q) = %v, want %v", in, got, want)
